@@ -17,7 +17,7 @@ REQUIRED_COUNTERS = ["primal.conelp", "primal.lp", "primal.socp", "primal.sdp", 
 
 def plan(tier):
     if tier == "thorough":
-        return [{"variant": "plain", "workers": 16, "cases": 2500}]
+        return [{"variant": "plain", "workers": 16, "cases": 15000}]
     return [{"variant": "plain", "workers": 16, "cases": 150}]
 
 
